@@ -34,6 +34,7 @@ class FGen:
         self.ch = ch
         self.vars = []          # (name, ctype, literal text)
         self.feat = set()
+        self.unc = set()        # texts of subexpressions whose tracked value is only a bound (truth values the generator does not compute)
 
     def leaf(self):
         ch = self.ch
@@ -52,6 +53,13 @@ class FGen:
         return '(%s)' % txt if v < 0 else txt, n, 'i', float(v)
 
     def expr(self, d):
+        r = self.expr1(d)
+        # a value built from an uncertain operand is uncertain (the operands of this call are the texts added since `before`)
+        if any(u in r[0] for u in self.unc):
+            self.unc.add(r[0])
+        return r
+
+    def expr1(self, d):
         ch = self.ch
         if d <= 0 or ch.int(0, 9) < 2:
             return self.leaf()
@@ -61,8 +69,8 @@ class FGen:
             if a[2] == 'i' and b[2] == 'i':
                 a = ('(double)' + a[0], '(double)' + a[1], 'f', a[3])
             op = ch.choice(['+', '-', '*', '/'])
-            if op == '/' and abs(b[3]) < 1e-6:
-                op = '+'
+            if op == '/' and (abs(b[3]) < 1e-6 or b[0] in self.unc):
+                op = '+'          # a divisor that may be zero would make the value inf or NaN: conversions and NaN signs are then not defined alike at translation and run time
             if op == '*' and abs(a[3]) * abs(b[3]) > 1e30:
                 op = '-'
             v = {'+': a[3] + b[3], '-': a[3] - b[3], '*': a[3] * b[3], '/': (a[3] / b[3]) if op == '/' else 0.0}[op]
@@ -76,15 +84,19 @@ class FGen:
             close = abs(a[3] - b[3]) <= 1e-6 * max(abs(a[3]), abs(b[3]), 1.0)
             self.feat.add('cmp' + op + (':operands-within-1-of-each-other' if abs(a[3] - b[3]) < 1 else ''))
             v = None if close else float({'<': a[3] < b[3], '<=': a[3] <= b[3], '>': a[3] > b[3], '>=': a[3] >= b[3], '==': False, '!=': True}[op])
+            if v is None:
+                self.unc.add('(%s %s %s)' % (a[0], op, b[0]))
             return '(%s %s %s)' % (a[0], op, b[0]), '(%s %s %s)' % (a[1], op, b[1]), 'i', (0.5 if v is None else v)
         if r < 65:
             a = self.expr(d - 1)
             self.feat.add('!' + a[2])
+            self.unc.add('(!%s)' % a[0])
             return '(!%s)' % a[0], '(!%s)' % a[1], 'i', 0.5
         if r < 77:
             a = self.expr(d - 1); b = self.expr(d - 1)
             op = ch.choice(['&&', '||'])
             self.feat.add(op + a[2] + b[2])
+            self.unc.add('(%s %s %s)' % (a[0], op, b[0]))
             return '(%s %s %s)' % (a[0], op, b[0]), '(%s %s %s)' % (a[1], op, b[1]), 'i', 0.5
         if r < 87:
             c = self.expr(d - 1); a = self.expr(d - 1); b = self.expr(d - 1)
@@ -93,6 +105,7 @@ class FGen:
             v = a[3] if abs(a[3]) >= abs(b[3]) else b[3]          # bound used for range decisions: the larger magnitude
             if k == 'i' and (a[3] < 0 or b[3] < 0):
                 v = -abs(v)
+            self.unc.add('(%s ? %s : %s)' % (c[0], a[0], b[0]))          # only a bound is tracked
             return '(%s ? %s : %s)' % (c[0], a[0], b[0]), '(%s ? %s : %s)' % (c[1], a[1], b[1]), k, v
         if r < 92:
             a = self.expr(d - 1)
